@@ -1710,7 +1710,7 @@ def check_C12(tier, seed):
         trees = run.export("GenRule", f"trees{nv}", "TREE", constants=dict(MaxNodes=4, NConds=3 if quick else 4, NV=nv,
                                                                               WithNext=False, SiblingRefs=True),
                            invariants=("Export", "SizeOK"))
-        trees += run.export("GenRule", f"walk{nv}", "TREE", constants=dict(MaxNodes=6, NConds=6, NV=nv, WithNext=False, SiblingRefs=True),
+        trees += run.export("GenRule", f"walk{nv}", "TREE", constants=dict(MaxNodes=6, NConds=6 if nv == 1 else 9, NV=nv, WithNext=False, SiblingRefs=True),
                             invariants=("Export", "SizeOK"), simulate=300 if quick else 6000, depth=14)
         cap = 1500 if quick else 30000
         if len(trees) > cap:
@@ -1723,6 +1723,24 @@ def check_C12(tier, seed):
                 q = {"vars": [{"cls": "A", "dom": doms[i]} for i in range(nv)], "flats": [], "bound": [], "desc": "entity",
                      "quant": "an", "sel": [], "cond": {"k": "true"}, "tree": t, "varkeys": list(range(1, nv + 1))}
                 qc.add(W, [q], [{"op": "rule", "qi": 1}])
+
+    # beyond C12's stated domain: two-variable trees whose conclusions mention the second variable only (the base condition
+    # still joins both: several assignments share their second value), branch conditions incl. disjunctions and a
+    # negated conjunction over that variable; worlds with few distinct values so that a value takes part in many matches
+    trees = run.export("GenRule", "walk2-second", "TREE", constants=dict(MaxNodes=4, NConds=9, NV=2, WithNext=False, SiblingRefs=True),
+                       invariants=("Export", "SizeOK"), simulate=400 if quick else 8000, depth=12, count=False)
+    for t in trees:
+        for _ in range(1 if quick else 2):
+            W = datasets.random_world(rng, rng.randint(4, 7))
+            n = len(W["objs"])
+            doms = [rng.sample(range(1, n + 1), rng.randint(3, min(n, 5))), rng.sample(range(1, n + 1), rng.randint(1, 3))]
+            q = {"vars": [{"cls": "A", "dom": doms[i]} for i in range(2)], "flats": [], "bound": [], "desc": "entity",
+                 "quant": "an", "sel": [], "cond": {"k": "true"}, "tree": t, "varkeys": [1, 2], "concl": "second"}
+            # C12 speaks of what each assignment produces; where the conclusions do not mention every variable several
+            # assignments build the same conclusion and the listed properties do not say how often it is to appear (judged as
+            # a set) - a disagreement is reported as an OBSERVATION, not as a violation of C12
+            qc.add(W, [q], [{"op": "rule", "qi": 1}], tag="conclusions-on-second-variable",
+                   _observe="rule trees whose conclusions do not mention every variable of the base")
 
     # beyond C12's wording: trees that also contain `with next_rule(c):` branches (always consulted as well).  The
     # wiring model covers them (RuleMech, WithNext) and they are executed and judged like the others, but a disagreement
